@@ -20,8 +20,10 @@ TOK_PLAIN = r"(?P<SPACE>\s+)|(?P<a>a)|(?P<b>b)|(?P<c>c)|(?P<d>d)|(?P<e>e)"
 # ... and a quoted word is a token of another kind (b) whose VALUE (the text between the quotes) may equal the value of an a
 # a comment (skipped) may hold any character but the line feed; keywords also rename tokens INTO and OUT OF the skipped
 # kinds: the word 'zz' becomes white space, a lone tab (white space) becomes the token b
-TOK_KW = r"(?P<SPACE>\s+)|(?P<COMMENT>\#[^\n]*)|(?P<X1>x)|(?P<X2>y)|(?P<W1>[k-w]+|zz)|\"(?P<Q1>[a-z]*)\""
-KW_SYN = {'X1': 'a', 'X2': 'a', 'W1': 'a', 'Q1': 'b'}
+# ... and a token that takes the rest of its line (=...) is b as well: a str text is split into lines which are right-stripped,
+# so the blanks that end such a line are not part of the token
+TOK_KW = r"(?P<SPACE>\s+)|(?P<COMMENT>\#[^\n]*)|(?P<X1>x)|(?P<X2>y)|(?P<W1>[k-w]+|zz)|\"(?P<Q1>[a-z]*)\"|(?P<R1>=[^\n]*)"
+KW_SYN = {'X1': 'a', 'X2': 'a', 'W1': 'a', 'Q1': 'b', 'R1': 'b'}
 KW_KEY = {('a', 'kw'): 'b', ('a', 'kww'): 'c', ('a', 'kwd'): 'd', ('a', 'kwe'): 'e', ('a', 'zz'): 'SPACE', ('SPACE', '\t'): 'b'}
 
 FAMILIES = {
@@ -44,6 +46,8 @@ FAMILIES = {
     'N3': (3, ['a'], 2, 3, 2, 0, 'rep'),
     # FOLLOW focused: A -> B t; B -> one alternative; later symbols only, also as N t M and t M (nullable last symbol)
     'F4': (4, ['a', 'b'], 2, 3, 3, 0, 'follow'),
+    # FOLLOW dependencies in cycles: A -> c B c, the others t N | empty with N any of them (tail recursion in cycles)
+    'Y4': (4, ['a', 'b', 'c'], 2, 3, 4, 0, 'cycle'),
 }
 
 
@@ -172,7 +176,7 @@ def render(toks, kw, salt=0):
         if t == 'a':
             lex.append(('x', 'y', 'mm')[(i + salt) % 3])
         elif t == 'b':
-            lex.append(('kw', '"x"', '"mm"', '"y"', '\t')[(i + salt) % 5])
+            lex.append(('kw', '"x"', '"mm"', '"y"', '\t', '=v  w')[(i + salt) % 6])
         elif t == 'c':
             lex.append('kww')
         elif t == 'd':
@@ -183,14 +187,18 @@ def render(toks, kw, salt=0):
     text = ''
     for i, l in enumerate(lex):
         if i:
-            if l == '\t' or lex[i - 1] == '\t':
+            if lex[i - 1].startswith('='):
+                glue = '  \t \n'                # a rest-of-line token: blanks and a tab end its line
+            elif l == '\t' or lex[i - 1] == '\t':
                 glue = ''
             else:
                 glue = (' ', ' zz ', ' ')[(i + salt) % 3]
             text += glue
         text += l
+    if lex and lex[-1].startswith('='):
+        text += '   \n' if salt % 2 else '  '
     if salt % 2:
-        text += ('' if text.endswith('\t') else ' ') + '# x\x0c y\r kw\x85 x\u2028 y'        # a comment ends at the line feed only
+        text += ('' if text.endswith(('\t', '\n')) else ' ') + '# x\x0c y\r kw\x85 x\u2028 y'        # a comment ends at the line feed only
         # (no blank after a tab that is a token: white space runs are one token)
     return text, [{'n': t, 'v': l.strip('"')} for t, l in zip(toks, lex)]      # value of a quoted word: without the quotes
 
@@ -331,6 +339,9 @@ def run_grammar(job):
                 if r2 != r:
                     viol.append(('C01', 'the tokens %s given as the list of lines %r: %s, given as the text %r: %s (grammar start=%s prods=%s smart=%s)' % (
                         toks, lines, r2, text, r, start, prods, smart), pcase, []))
+                    if exact and r in ('tree', 'ParsingError'):
+                        viol.append(('C02', 'conflict-free grammar start=%s prods=%s smart=%s: the tokens %s given as the list of lines %r give %s, the '
+                                     'same tokens given as one text give %s' % (start, prods, smart, toks, lines, r2, r), pcase, []))
                 elif r2 == 'tree':
                     obs.append({'g': gdesc, 'toks': etoks2, 'res': r2, 'tree': tj2, 'exact': bool(exact),
                                 'smart': smart, 'kw': kw, 'tn': toks, 'aslist': True})
@@ -416,7 +427,7 @@ def explore(ctx, want):
     if want == 'C03':
         fams = fams + ['R3', 'N3']
     if want == 'C02':
-        fams = fams + ['W6', 'H3', 'F4']
+        fams = fams + ['W6', 'H3', 'F4', 'Y4']
     total_parses = 0
     ngram = 0
     nobs = 0
